@@ -128,7 +128,8 @@ int main(int argc, char **argv) {
   ex.show = [](const Op &o) { char b[48]; if (o.k == RAISE) snprintf(b, 48, "raise(%s)", SCRIPTS[o.a].name); else snprintf(b, 48, "%s(e%d)", kN[o.k], o.a); return std::string(b); };
   ex.menu = [&](const std::vector<Op> &h) { std::vector<Op> m; Model md; for (auto &o : h) md.apply(o);
     if (laneD) { const int evs[3] = {0, 3, 7}; for (int e : evs) { m.push_back({ENABLE, e}); if (add_signal_then_disable() || !md.pending_add(e)) { m.push_back({DISABLE, e}); if (e != 3) m.push_back({DESTROY, e}); } if (e != 3) m.push_back({ADDSIG, e}); } }
-    else if (laneC) { for (int e = 0; e < 3; e++) { m.push_back({ENABLE, e}); m.push_back({DISABLE, e}); } m.push_back({ENABLE, 5}); if (mixed_uncatchable_set()) { m.push_back({ENABLE, 6}); m.push_back({DESTROY, 6}); } }
+    else if (laneC) { for (int e = 0; e < 3; e++) { m.push_back({ENABLE, e}); m.push_back({DISABLE, e}); } m.push_back({ENABLE, 5}); if (mixed_uncatchable_set() && cfg == 1 && !inloop) {      // e6 only in the direct lane C of config 1 (it doubles the lane's state space)
+      m.push_back({ENABLE, 6}); m.push_back({DESTROY, 6}); } }
     else if (laneB) { for (int e = 0; e < 5; e++) { m.push_back({ENABLE, e}); m.push_back({DISABLE, e}); } }
     else { for (int e = 0; e < 5; e++) { m.push_back({ENABLE, e}); m.push_back({DISABLE, e}); m.push_back({DESTROY, e}); } }
     for (int i = laneB ? 2 : 0; i < (laneB ? (int)SCRIPTS.size() : 2); i++) {
